@@ -5,7 +5,7 @@
     carried by the event — command type, jobId, mailbox length, ack counters, flags read —
     must agree with the model.  Executable; extracted by Extract/ExtractWorkers.v. *)
 From Coq Require Import ZArith List Bool Arith.
-From Texel Require Import Workers.Workers.
+From Texel Require Import Workers.Workers Workers.Race Workers.Access.
 Import ListNotations.
 Local Open Scope Z_scope.
 
@@ -35,13 +35,21 @@ Inductive ev :=
 | EvRdQuit (v : bool) | EvRdSearch (v : bool)
 | EvGo (p : bool) | EvQuit | EvUnponder
 | EvResult (r cur : Z)                             (* Search::shouldStop handler: reported / current jobId *)
+| EvSetOpt                                         (* H5b: setOptionWhenIdle queued an option *)
+| EvOptTake (b : bool)                             (* H5b: setOptions: pendingOptions was non-empty? *)
+| EvWOpt                                           (* H5b: setOptions applies an option *)
+| EvRdFin                                          (* H5b: waitOptionsSet returned *)
 | EvSendQuit (t : tid) (q : Z)
 | EvQAck (t : tid) (q : Z).
+
+(** option hand-shake part of the replay state (Access.v); [om]: the trace carries the H5b events *)
+Record ostate := mkO { om : bool; opend : bool; ofin : bool; oeo : eopt; owopt : bool }.
 
 Record cstate := mkC {
   cs : state;
   pend : tid -> option (tid * nat * Z * nat);   (* PUSH seen, its notify not yet *)
-  pendres : option (Z * Z)                      (* RESULT seen: the engine thread's next event decides *)
+  pendres : option (Z * Z);                     (* RESULT seen: the engine thread's next event decides *)
+  copt : ostate
 }.
 
 Inductive result :=
@@ -56,13 +64,33 @@ Variable uci : tid.       (* a number above N standing for the UCI thread *)
 Definition last_cmd (l : list cmd) : option cmd :=
   match rev l with c :: _ => Some c | [] => None end.
 
+Definition cx (c : cstate) : xstate :=
+  mkX (cs c) (opend (copt c)) (ofin (copt c)) (oeo (copt c)).
+Definition set_opt (c : cstate) (x : xstate) (w : bool) : cstate :=
+  mkC (cs c) (pend c) (pendres c) (mkO (om (copt c)) (xpend x) (xfin x) (xeo x) w).
+Definition with_eo (eo : eopt) (r : result) : result :=
+  match r with
+  | Ok c => Ok (mkC (cs c) (pend c) (pendres c)
+                    (mkO (om (copt c)) (opend (copt c)) (ofin (copt c)) eo (owopt (copt c))))
+  | Bad n => Bad n
+  end.
+
+(** a transition of the control LTS; with H5b also the guards of the option layer (Access.xstep):
+    the engine thread reads [search] / clears it only after setOptions() has finished, and go is
+    set up only after waitOptionsSet *)
 Definition do_label (c : cstate) (lb : label) (k : state -> result) : result :=
   match lstep N parent (cs c) lb with
-  | Some s' => k s'
+  | Some s' =>
+      if om (copt c) then
+        match xstep N parent true (cx c) (XL lb) with
+        | Some x' => with_eo (xeo x') (k s')
+        | None => Bad 19
+        end
+      else k s'
   | None => Bad 1
   end.
 
-Definition ok_state (c : cstate) (s : state) : result := Ok (mkC s (pend c) (pendres c)).
+Definition ok_state (c : cstate) (s : state) : result := Ok (mkC s (pend c) (pendres c) (copt c)).
 
 Definition beq (a b : bool) : bool := Bool.eqb a b.
 
@@ -72,7 +100,7 @@ Definition check_ev0 (c : cstate) (e : ev) : result :=
   | EvPush t o ty j ql =>
       match pend c t with
       | Some _ => Bad 2
-      | None => Ok (mkC s (upd (pend c) t (Some (o, ty, j, ql))) (pendres c))
+      | None => Ok (mkC s (upd (pend c) t (Some (o, ty, j, ql))) (pendres c) (copt c))
       end
   | EvN t o =>
       if Nat.eqb t uci then
@@ -97,7 +125,7 @@ Definition check_ev0 (c : cstate) (e : ev) : result :=
                 match last_cmd (qu s' o) with
                 | Some m =>
                     if Nat.eqb (cmd_type m) ty && (cmd_job m =? j) && Nat.eqb (length (qu s' o)) ql
-                    then Ok (mkC s' (upd (pend c) t None) (pendres c))
+                    then Ok (mkC s' (upd (pend c) t None) (pendres c) (copt c))
                     else Bad 5
                 | None => Bad 5
                 end)
@@ -147,8 +175,31 @@ Definition check_ev0 (c : cstate) (e : ev) : result :=
   | EvResult r cur =>
       (* the handler runs for the REPORT_RESULT just popped while the engine thread searches *)
       match pc (th s 0%nat) with
-      | PPoll KMSearch => if job (th s 0%nat) =? cur then Ok (mkC s (pend c) (Some (r, cur))) else Bad 12
+      | PPoll KMSearch => if job (th s 0%nat) =? cur then Ok (mkC s (pend c) (Some (r, cur)) (copt c)) else Bad 12
       | _ => Bad 17
+      end
+  | EvSetOpt =>
+      Ok (mkC s (pend c) (pendres c) (mkO (om (copt c)) true false (oeo (copt c)) (owopt (copt c))))
+  | EvOptTake b =>
+      if negb (beq b (opend (copt c))) then Bad 32 else
+      match xstep N parent true (cx c) XTake with
+      | Some x' => Ok (set_opt c x' false)
+      | None => Bad 31
+      end
+  | EvWOpt =>
+      match oeo (copt c), owopt (copt c) with
+      | EONeed, true => Ok c                      (* further options of the same batch *)
+      | _, _ =>
+          match xstep N parent true (cx c) XApply with
+          | Some x' => Ok (set_opt c x' true)
+          | None => Bad 33
+          end
+      end
+  | EvRdFin =>
+      (* C10_options_applied_before_ready: the model lets the UCI thread pass only when settled *)
+      match xstep N parent true (cx c) XWaitOpt with
+      | Some _ => Ok c
+      | None => Bad 30
       end
   | EvSendQuit t q => if qa (th s t) =? q then Ok c else Bad 15
   | EvQAck t q => if qa (th s t) =? q then Ok c else Bad 16
@@ -159,8 +210,8 @@ Definition ev_thread (e : ev) : tid :=
   match e with
   | EvN t _ | EvW t | EvPush t _ _ _ _ | EvPop t _ _ _ | EvEmpty t | EvStopSearch t _ _
   | EvAck t _ _ | EvJob t _ | EvMaxD t | EvStart t _ | EvInit t | EvSendQuit t _ | EvQAck t _ => t
-  | EvBest | EvClear | EvRdQuit _ | EvRdSearch _ | EvResult _ _ => 0%nat
-  | EvGo _ | EvQuit | EvUnponder => uci
+  | EvBest | EvClear | EvRdQuit _ | EvRdSearch _ | EvResult _ _ | EvOptTake _ | EvWOpt => 0%nat
+  | EvGo _ | EvQuit | EvUnponder | EvSetOpt | EvRdFin => uci
   end.
 
 (** a result is accepted (HelperThreadResult thrown, poll left) iff its jobId is the current one:
@@ -171,7 +222,7 @@ Definition check_ev (c : cstate) (e : ev) : result :=
       if Nat.eqb (ev_thread e) 0 then
         let continues := match e with EvPop _ _ _ _ | EvEmpty _ => true | _ => false end in
         if Bool.eqb continues (negb (r =? cur))
-        then check_ev0 (mkC (cs c) (pend c) None) e
+        then check_ev0 (mkC (cs c) (pend c) None (copt c)) e
         else Bad 18
       else check_ev0 c e
   | None => check_ev0 c e
@@ -207,4 +258,5 @@ Definition reconf (s : state) (keep : tid -> bool) : state :=
           (fun t => match t with O => flag s 0%nat | _ => if keep t then flag s t else false end)
           (search s) (quitf s) (ponder s) (epc s) (sid s) (nbest s).
 
-Definition cinit : cstate := mkC init (fun _ => None) None.
+Definition oinit (m : bool) : ostate := mkO m false true EOIdle false.
+Definition cinit (m : bool) : cstate := mkC init (fun _ => None) None (oinit m).
